@@ -411,7 +411,16 @@ func (c *fsCache) set(key string, entry []byte) error {
 	}
 	name := c.fn.FileName(key)
 	dir := filepath.Dir(name)
-	if err := c.root.MkdirAll(dir, 0o755); err != nil {
+	// os.Root.MkdirAll reports EEXIST when another goroutine creates one of the
+	// directories at the same moment; that directory is there then, so retry
+	// (at most once per path component).
+	var err error
+	for range strings.Count(dir, string(filepath.Separator)) + 2 {
+		if err = c.root.MkdirAll(dir, 0o755); err == nil || !errors.Is(err, fs.ErrExist) {
+			break
+		}
+	}
+	if err != nil {
 		return err
 	}
 	// Write to a temporary file in the same directory and rename it into place:
